@@ -1,6 +1,6 @@
 SPECIFICATION SimSpec
 CONSTANTS
-  Parties = {"p1", "p2", "p3", "p4"}
+  Parties = {"p1", "p2", "p3", "p4", "p5"}
   Creator = "p1"
   MaxCommits = 40
   MaxProps = 40
@@ -10,22 +10,22 @@ CONSTANTS
   EncChoices = {FALSE, TRUE}
   ByValueMax = 2
   AllowConflicts = FALSE
-  Features = {"psk", "gce", "reinit", "badkp", "storage", "custom"}
-  Window = 1024
-  Retention = 3
+  Features = {"succ", "reinit", "gce"}
+  Window = 2
+  Retention = 2
   BurstSizes = {1, 2}
-  PskIds = {"k1", "k2"}
-  PskValues = {"none", "a", "b"}
+  PskIds = {}
+  PskValues = {"none"}
   JitterChoices = {99999}
   Deviations = {"F12", "F14"}
-  MaxApps = 30
+  MaxApps = 0
   MaxSucc = 6
   Depth = 60
-  BootSize = 0
-  WProgress = 60
-  WPropose = 45
-  WCommit = 40
-  WApp = 0
-  WStore = 8
+  BootSize = 4
+  WProgress = 62
+  WPropose = 30
+  WCommit = 35
+  WApp = 15
+  WStore = 10
 INVARIANT EmitAtDepth
 CHECK_DEADLOCK FALSE
